@@ -1,6 +1,6 @@
 (* C17 - saving with the EMS fixes: the rewritten time units string. *)
 From Coq Require Import ZArith List Bool.
-From EV Require Import Model.TimeUnits Proofs.TimeUnitsP.
+From EV Require Import Model.TimeUnits Proofs.TimeUnitsP Model.TimeCoord Proofs.TimeCoordP.
 Import ListNotations.
 Open Scope Z_scope.
 
@@ -45,3 +45,40 @@ Theorem C17_old_single_digit_hour_refuted :
   exists off, -1440 < off < 1440 /\ parse_zone (format_offset_old off) = None.
 Proof. exact old_single_digit_hour_refuted. Qed.
 Print Assumptions C17_old_single_digit_hour_refuted.
+
+(* ---- which variable is saved as the time variable (Convention.time_coordinate) ---- *)
+
+(* never the bounds of another variable ... *)
+Theorem C17_time_coordinate_not_bounds : forall vs v, time_coordinate vs = Some v ->
+  forall w, In w vs -> tv_bounds w <> Some (tv_name v).
+Proof. exact not_bounds. Qed.
+Print Assumptions C17_time_coordinate_not_bounds.
+
+(* ... a decoded time variable of the dataset, the first one in dataset order that qualifies *)
+Theorem C17_time_coordinate_first : forall vs v, time_coordinate vs = Some v ->
+  (In v vs /\ tv_since v = true /\ tv_datetime v = true) /\
+  exists pre post, vs = pre ++ v :: post /\ forall u, In u pre -> eligible (bounds_names vs) u = false.
+Proof. intros vs v H. split; [exact (is_time vs v H)|exact (first_eligible vs v H)]. Qed.
+Print Assumptions C17_time_coordinate_first.
+
+Theorem C17_time_coordinate_none_iff : forall vs,
+  time_coordinate vs = None <-> forall u, In u vs -> eligible (bounds_names vs) u = false.
+Proof. exact none_iff. Qed.
+Print Assumptions C17_time_coordinate_none_iff.
+
+(* a time coordinate with bounds is found whether its bounds are listed before or after it *)
+Theorem C17_time_bounds_position_irrelevant : forall pre post t b,
+  tv_since t = true -> tv_datetime t = true -> tv_bounds t = Some (tv_name b) -> tv_bounds b = None ->
+  tv_name t <> tv_name b ->
+  (forall u, In u (pre ++ post) -> tv_since u && tv_datetime u = false) ->
+  (forall u, In u (pre ++ post) -> tv_bounds u <> Some (tv_name t)) ->
+  show (time_coordinate (pre ++ b :: t :: post)) = Some (tv_name t) /\
+  show (time_coordinate (pre ++ t :: b :: post)) = Some (tv_name t).
+Proof. exact bounds_position_irrelevant. Qed.
+Print Assumptions C17_time_bounds_position_irrelevant.
+
+(* documentation of the defect repaired in /repo (171c774) *)
+Theorem C17_old_time_coordinate_takes_bounds_refuted :
+  exists vs v w, time_coordinate_old vs = Some v /\ In w vs /\ tv_bounds w = Some (tv_name v).
+Proof. exact old_takes_bounds_refuted. Qed.
+Print Assumptions C17_old_time_coordinate_takes_bounds_refuted.
